@@ -1,0 +1,20 @@
+/*
+ * SPDX-FileCopyrightText: © 2017-2025 Istari Digital, Inc.
+ * SPDX-License-Identifier: Apache-2.0
+ */
+
+package simd
+
+// Search finds the first idx for which xs[idx] >= k in xs.
+//
+// The unrolled assembly kernel compares four keys per iteration before it
+// checks the length, so it reads (and can return an index derived from) memory
+// past the end of xs unless len(xs) is a non-zero multiple of 8. Like the
+// portable version, use it only for such lengths and fall back to the scalar
+// search otherwise.
+func Search(xs []uint64, k uint64) int16 {
+	if len(xs) < 8 || (len(xs)%8 != 0) {
+		return Naive(xs, k)
+	}
+	return search(xs, k)
+}
